@@ -241,6 +241,10 @@ def run_shard(spec, ctx):
                 if ok:
                     c2['az'] = case['az']
                     c2['length'] = geod.chord(la1, lo1, la2, lo2, a_, invf_)
+                    # the same numbers near the other pole can be a much longer line (adjacent zones are a few km apart
+                    # at 80 deg and 600 km apart at 10 deg): the property speaks of lines of 1 m .. 100 km only
+                    ok = 1.0 <= c2['length'] <= 100000.0
+                if ok:
                     judge(ns, ctx, c2, state)
                     judge(ns, ctx, case, state)
                     ctx.count('other_hemisphere_sequences')
